@@ -1,11 +1,13 @@
 """property id -> contract modules that carry obligations for it"""
 TECH = "contract-based deductive verification: VCs generated from the AST of the real functions, discharged by z3/cvc5"
 PROPS = {
-    "C11": {"modules": ["contracts.vhd", "contracts.vhdx", "contracts.vmdk", "contracts.vdi", "contracts.hdd", "contracts.c11"], "level": "proof",
+    "C11": {"modules": ["contracts.vhd", "contracts.vhdx", "contracts.vmdk", "contracts.vdi", "contracts.hdd", "contracts.c11"], "level": "proof", "bounded_from": ["contracts.c11"],
             "technique": TECH + "; loop variants without well-formedness assumptions; finite-universe variants for reference walks"},
-    "C13": {"modules": ["contracts.vhd", "contracts.vhdx", "contracts.vmdk", "contracts.vdi", "contracts.hdd", "contracts.c13"], "level": "proof",
+    "C13": {"modules": ["contracts.vhd", "contracts.vhdx", "contracts.vmdk", "contracts.vdi", "contracts.hdd", "contracts.c13"], "level": "proof", "bounded_from": ["contracts.c13"],
             "technique": TECH + "; ghost I/O-cost postconditions; unbounded-integer arithmetic for wide offsets"},
     "C10": {"modules": ["contracts.vmdk_c10", "contracts.vmdk", "contracts.hdd"], "level": "proof", "technique": TECH + "; regex language inclusion for the extent grammar"},
+    "C08": {"modules": ["contracts.stream", "contracts.vhd", "contracts.vhdx", "contracts.vmdk", "contracts.vdi", "contracts.hdd", "contracts.c08"], "level": "proof", "bounded_from": ["contracts.c08"],
+            "technique": TECH + "; AlignedStream verified from the installed source against the L-stream contract each _read is proved to satisfy; frame obligations for history independence"},
     "C09": {"modules": ["contracts.effects_c09"], "level": "proof", "technique": "contract-based frame/effect obligations per call site over the whole package, discharged by set inclusion (no solver); audit-hook run as bounded cross-check"},
     "C19": {"modules": ["contracts.xml_c19"], "level": "proof", "technique": "contract-based frame obligations on every XML parser entry point (callee resolves to defusedxml.ElementTree.fromstring), assumed defusedxml contract cross-checked by a bounded corpus"},
     "C02": {"modules": ["contracts.vmdk"], "level": "proof", "technique": TECH},
